@@ -433,13 +433,32 @@ async function runWriter(job) {
     const h = crypto.createHash("sha256");
     events.push({ ev: "new" });
     let off = 0;
-    for (const n of beh.writes) {
-      const data = new Uint8Array(n);
-      for (let i = 0; i < n; i++) data[i] = (off + i * 7 + 13) & 255;
-      off += n;
-      w.updateBytes(data);
-      h.update(data);
-      events.push({ ev: "upd", n, buf: w.bufferLength, tot: w.bytesHashed, blk: chunks });
+    for (const wr of beh.writes) {
+      if (wr.k === "raw") {
+        const n = wr.c;
+        const data = new Uint8Array(n);
+        for (let i = 0; i < n; i++) data[i] = (off + i * 7 + 13) & 255;
+        off += n;
+        w.updateBytes(data);
+        h.update(data);
+        events.push({ ev: "upd", n, buf: w.bufferLength, tot: w.bytesHashed, blk: chunks });
+      } else {
+        // a token of c characters of w UTF-8 bytes each, written through the public update method; the oracle hashes the
+        // layout of Sha256Writer!Token: kind byte, 32-bit big-endian byte length, UTF-8 bytes
+        const ch = { 1: ["a", "Z", "7"], 2: ["\u00e9", "\u00df", "\u03bb"], 3: ["\u767a", "\u9001", "\u30c6"], 4: ["\u{1F600}", "\u{1F680}", "\u{10348}"] }[wr.w];
+        let str = "";
+        for (let i = 0; i < wr.c; i++) str += ch[(off + i) % 3];
+        off += wr.c;
+        const bytes = Buffer.from(str, "utf8");
+        if (bytes.length !== wr.c * wr.w) throw new Error("driver: token of unexpected byte length");
+        const head = Buffer.alloc(5);
+        head[0] = wr.k === "tag" ? 1 : 2;
+        head.writeUInt32BE(bytes.length, 1);
+        if (wr.k === "tag") w.updateTag(str); else w.updateString(str);
+        h.update(head);
+        h.update(bytes);
+        events.push({ ev: "tok", k: wr.k, c: wr.c, w: wr.w, buf: w.bufferLength, tot: w.bytesHashed, blk: chunks });
+      }
     }
     let hex = "";
     try { hex = w.digestHex(); } catch (e) { hex = "threw:" + errMsg(e); }
